@@ -187,6 +187,21 @@ def run(cx):
     cx.check('C16.W1', not bad and len(ws) >= 4, M + 'DnsMultiplexer', 'writers', 'active_requests-writers', ', '.join(bad) or f'{len(ws)} mutable uses')
 
     # ---------------------------------------------------------------- N1 argument names agree with the parameters they are bound to (engine/argnames.py)
+    # ---------------------------------------------------------------- R1 the first transmission that finishes decides
+    # retry() races the retransmissions of one query; each transmission examines at most three datagrams (G1) and then fails.  The
+    # result of the first one to finish - Ok or Err - is the result of the query: an error that is swallowed while a retransmission
+    # is still in flight gives an off-path sender three fresh guesses per retransmission
+    rt = cx.fn('C16.R1', 'hickory_net::udp::udp_client_stream::retry::{closure#0}')
+    if rt:
+        SEL = r'await\(poll_fn::poll_fn\(closure:udp_client_stream::retry::\{closure#0\}::\{closure@poll_fn#0\}\)\)@Ready\.0@_0\.0'
+        done = [s_ for bb in range(len(rt.blocks)) for s_, ps in rt.edge_props(bb).items() if any(re.search(rf'^ok\({SEL}\)$', shorten(p_)) for p_ in ps)]
+        cx.check('C16.R1', len(done) >= 1, rt.path, 'edges', 'finished-transmission-edge-present', str(len(done)))
+        after = cx.reachable_from(rt, done) if done else set()
+        again = [c_ for c_ in cx.calls(rt, r'poll_fn::poll_fn$') if c_.bb in after]
+        cx.check('C16.R1', not again, rt.path, 'path', 'a-finished-transmission-ends-the-race(its result is returned, Ok or Err)',
+                 'the select loop is re-entered after a transmission has finished', again[0].loc if again else '')
+        rets = [r_ for r_ in cx.returns(rt, r'.') if r_.bb in after]
+        cx.check('C16.R1', len(rets) == 1 and bool(re.search(rf'^{SEL}@Some\.0$', rets[0].term)), rt.path, 'ret', 'returns-the-finished-transmission-result-as-is', '; '.join(r_.term[:120] for r_ in rets))
     argnames.check(cx, 'C16.N1', r'hickory_net::(udp|xfer)', floor=25)
     argnames.check_fields(cx, 'C16.N1', r'hickory_net::(udp|xfer)', floor=42)
 
